@@ -38,6 +38,24 @@ pub fn stress(path: &str) {
         }),
     )
     .unwrap();
+    // user functions that differ from each other (a mix-up between them shows in the result)
+    ctx.set_function(
+        "dbl".into(),
+        Function::new(|a| match a {
+            Value::Int(i) => Ok(Value::Int(i64::wrapping_mul(*i, 2))),
+            other => Ok(Value::Tuple(vec![other.clone(), other.clone()])),
+        }),
+    )
+    .unwrap();
+    ctx.set_function(
+        "neg".into(),
+        Function::new(|a| match a {
+            Value::Int(i) => Ok(Value::Int(i64::wrapping_neg(*i))),
+            other => Ok(Value::String(format!("<{}>", other))),
+        }),
+    )
+    .unwrap();
+    ctx.set_function("name".into(), Function::new(|a| Ok(Value::String(format!("{:?}", a))))).unwrap();
     let ctx = Arc::new(ctx);
     let mut trees = vec![];
     for line in text.lines() {
@@ -233,6 +251,37 @@ pub fn stress(path: &str) {
             nbad += 1;
         }
     }
+    // context-free evaluation (`Node::eval`, a context of its own per call) of ONE shared tree, by all threads at once
+    {
+        let srcs = ["x = 1; x + 1", "q = 5; q *= 2; q", "1 + 2", "c = \"a\"; c += \"b\"; c", "(p = 1, p = 2, p)", "z = (1, 2); z", "k = 2; k ^= 2; k"];
+        let shared: Vec<Arc<Node<DefaultNumericTypes>>> = srcs.iter().map(|s| Arc::new(build_operator_tree(s).unwrap())).collect();
+        let want: Vec<String> = srcs.iter().map(|s| crate::canon::result_text(&eval(s))).collect();
+        let (shared, want) = (Arc::new(shared), Arc::new(want));
+        let barrier = Arc::new(std::sync::Barrier::new(threads));
+        let mut handles = vec![];
+        for _t in 0..threads {
+            let (shared, want, barrier) = (shared.clone(), want.clone(), barrier.clone());
+            handles.push(std::thread::spawn(move || {
+                let mut bad = vec![];
+                barrier.wait();
+                for _ in 0..3000 {
+                    for (i, n) in shared.iter().enumerate() {
+                        let got = crate::canon::result_text(&n.eval());
+                        if got != want[i] && bad.len() < 3 {
+                            bad.push(format!("eval():{}\t{}\t{}", i, want[i], got));
+                        }
+                    }
+                }
+                bad
+            }));
+        }
+        for h in handles {
+            for b in h.join().unwrap() {
+                println!("MISMATCH\t{}", b);
+                nbad += 1;
+            }
+        }
+    }
     // fourth phase: every thread evaluates expressions of ITS OWN (same operators, different operands) in a tight loop
     {
         let barrier = Arc::new(std::sync::Barrier::new(threads));
@@ -246,6 +295,7 @@ pub fn stress(path: &str) {
                     format!("max(a, {}, b)", k), format!("min({}, b)", k), format!("str::from({}) + s", k), format!("len(s + \"{}\")", "x".repeat(t)),
                     format!("math::sqrt({})", k * 7), format!("{} % 7 == a", k), format!("(a, {}, t)", k), format!("if(a > {}, s, b)", k), format!("{} / b", k),
                     format!("math::hypot({}, b)", k), format!("f({}) - a", k), format!("-{} < a", k), format!("str::to_uppercase(s + \"q{}\")", k),
+                    format!("dbl({})", k), format!("neg({})", k), format!("name({})", k), format!("dbl(neg({})) + neg(dbl(a))", k), format!("(f({}), dbl(s), neg(b), name(t))", k),
                 ];
                 let trees: Vec<Node<DefaultNumericTypes>> = srcs.iter().map(|s| build_operator_tree(s).unwrap()).collect();
                 let want: Vec<String> = trees.iter().map(|n| crate::canon::result_text(&n.eval_with_context(&*ctx))).collect();
@@ -253,6 +303,15 @@ pub fn stress(path: &str) {
                 barrier.wait();
                 // (the reference above was computed while other threads were still building: recompute it once more now)
                 // first the three power expressions alone, many times (a shared memo of the last result would be hit here)
+                // the calls of user functions alone, many times (different functions per position, different arguments per thread)
+                for _ in 0..6000 {
+                    for (i, n) in trees.iter().enumerate().skip(18) {
+                        let got = crate::canon::result_text(&n.eval_with_context(&*ctx));
+                        if got != want[i] && bad.len() < 3 {
+                            bad.push(format!("loop:{}\t{}\t{}", srcs[i], want[i], got));
+                        }
+                    }
+                }
                 for _ in 0..30000 {
                     for (i, n) in trees.iter().enumerate().take(3) {
                         let got = crate::canon::result_text(&n.eval_with_context(&*ctx));
